@@ -1,10 +1,14 @@
 #!/bin/sh
-# Build the framework from files on disk only (offline): Lean library + model driver, Go harness warm-up.
-set -e
+# Build the framework from files on disk only (offline): Lean theorems + model drivers, Go harness and
+# extractor warm-up.  Every ./check rebuilds what it needs anyway; failures here are reported, not fatal.
 cd "$(dirname "$0")"
 export GOFLAGS=-mod=mod GOPROXY=off GOSUMDB=off GOTOOLCHAIN=local
-(cd lean && lake build Csvq && for f in Drivers/C*.lean; do lake build model-$(basename $f .lean | tr A-Z a-z); done)
+rc=0
+(cd lean && for f in Csvq/Props/C*.lean; do lake build Csvq.Props.$(basename $f .lean) || echo "WARN: $f did not build"; done)
+(cd lean && for f in Drivers/C*.lean; do lake build model-$(basename $f .lean | tr A-Z a-z) || echo "WARN: driver $f did not build"; done)
 cp /repo/go.sum harness/go.sum
-(cd harness && for d in cmd/*/; do go build -tags verif -o /dev/null ./$d; done)
-for d in extract/*/; do [ -f "$d/go.mod" ] && (cd "$d" && go build -o /dev/null . ) || true; done
+(cd harness && for d in cmd/*/; do go build -tags verif -o /dev/null ./$d || echo "WARN: $d did not build"; done)
+for d in extract/*/; do [ -f "$d/go.mod" ] && (cd "$d" && go build -o /dev/null . || echo "WARN: $d did not build"); done
+(cd /repo && go build -tags verif -o /dev/null . ) || rc=1
 echo setup-ok
+exit $rc
